@@ -43,6 +43,7 @@ pub struct Config {
     pub let_types: Vec<(String, String)>,
     /// R10: expand derive(Clone) of a fieldless enum into its definitional impl with `ensures r == *self` (verified by Verus)
     pub expand_clone: bool,
+    pub expand_default: bool,
     /// local `use` statements inside the body are dropped (they name external crates) and these are injected instead
     pub inject_use: Vec<String>,
     /// R9: functions (by name) that return Vec after R9; `f(..).collect()` on them is the identity and is dropped
@@ -189,6 +190,7 @@ impl Config {
         }
         c.iter_to_vec = item["iter_to_vec"].as_bool().unwrap_or(false);
         c.expand_clone = item["expand_clone"].as_bool().unwrap_or(false);
+        c.expand_default = item["expand_default"].as_bool().unwrap_or(false);
         c.inject_use = strs(&item["inject_use"]);
         if let Some(m) = item["let_types"].as_object() {
             for (k, v) in m {
@@ -2714,6 +2716,21 @@ fn rewrite_attrs(attrs: &mut Vec<syn::Attribute>, cfg: &Config, counts: &mut Cou
 }
 
 pub fn apply_to_item_and_print(mut it: syn::Item, cfg: &Config, counts: &mut Counts) -> Result<String, String> {
+    // R10: `#[derive(Default)]` on an enum with a `#[default]` variant: `default()` returns that variant
+    let mut default_variant: Option<(String, String)> = None;
+    if cfg.expand_default {
+        if let syn::Item::Enum(e) = &it {
+            let derives_default = e.attrs.iter().any(|a| a.path().is_ident("derive") && a.to_token_stream().to_string().contains("Default"));
+            for v in &e.variants {
+                if derives_default && v.attrs.iter().any(|a| a.path().is_ident("default")) && matches!(v.fields, syn::Fields::Unit) {
+                    default_variant = Some((e.ident.to_string(), v.ident.to_string()));
+                }
+            }
+        }
+        if default_variant.is_none() {
+            return Err("lost anchor: expand_default on an item without #[derive(Default)] + #[default] unit variant".into());
+        }
+    }
     let publ: syn::Visibility = syn::parse_quote!(pub);
     if let Some(n) = &cfg.rename_fn {
         let id = syn::Ident::new(n, Span::call_site());
@@ -2798,6 +2815,10 @@ pub fn apply_to_item_and_print(mut it: syn::Item, cfg: &Config, counts: &mut Cou
         } else {
             return Err("unsupported construct: expand_clone on a non-enum".into());
         }
+    }
+    if let Some((n, v)) = default_variant {
+        extra += &format!("impl Default for {n} {{\n    fn default() -> (r: {n})\n        ensures r == {n}::{v}\n    {{ {n}::{v} }}\n}}\n", n = n, v = v);
+        bump(counts, "R10.expand_default");
     }
     Ok(crate::printer::print_tokens(it.to_token_stream()) + &extra)
 }
